@@ -48,6 +48,7 @@ type recView struct {
 
 func (s *Sim) checkReconcile(rec *Reconcile) {
 	s.oracles.recEvals++
+	s.count("oracle.reconciles_judged")
 	// ---- C15: a panic escaping the worker
 	if rec.Panic != nil {
 		site := panicSite(rec.PanicStack)
@@ -887,6 +888,7 @@ func (s *Sim) checkStatusWrites(v *recView) {
 			continue
 		}
 		s.oracles.statusEvals++
+		s.count("oracle.status_writes_judged")
 		in := c.In.(*asv1.StatefulSet)
 		st := in.Status
 		if c.Err != nil && apierrors.IsConflict(c.Err) {
